@@ -98,7 +98,7 @@ func (f *notifFam) Apply(st M) M {
 			c = fmt.Sprintf("c%d", f.nseq)
 			ev["c"] = c
 		}
-		msg = &ntypes.MsgCreateNotification{Creator: f.c.Acct(gets(st, "s")).S(), To: f.target(gets(st, "to")), Contents: fmt.Sprintf("{\"c\":\"%s\"}", c)}
+		msg = &ntypes.MsgCreateNotification{Creator: f.c.Acct(gets(st, "s")).S(), To: f.target(gets(st, "to")), Contents: notifBody(c)}
 	case "delete":
 		t := geti(st, "t")
 		micro := int64(0)
@@ -124,6 +124,26 @@ func (f *notifFam) Apply(st M) M {
 		x["err"] = err.Error()
 	}
 	return ev
+}
+
+// notifBody is the exact JSON text sent for the symbolic contents c: the layout (compact, spaced, indented, padded, escaped)
+// depends on the symbol, so that a chain that re-encodes the contents it stores is noticed
+func notifBody(c string) string {
+	h := 0
+	for _, ch := range c {
+		h = h*31 + int(ch)
+	}
+	switch h % 5 {
+	case 1:
+		return fmt.Sprintf("{\"c\": \"%s\"}", c)
+	case 2:
+		return fmt.Sprintf("{\n  \"c\": \"%s\"\n}", c)
+	case 3:
+		return fmt.Sprintf(" {\"c\":\"%s\"} ", c)
+	case 4:
+		return fmt.Sprintf("{\"c\":\"%s\",\"u\":\"\\u00e9\"}", c)
+	}
+	return fmt.Sprintf("{\"c\":\"%s\"}", c)
 }
 
 func (f *notifFam) Project() M {
@@ -174,7 +194,11 @@ func (f *notifFam) Project() M {
 			c := n.Contents
 			var m map[string]string
 			if json.Unmarshal([]byte(n.Contents), &m) == nil && m["c"] != "" {
-				c = m["c"]
+				if notifBody(m["c"]) == n.Contents { // byte for byte what was sent for that symbol
+					c = m["c"]
+				} else {
+					c = "!rewritten:" + m["c"]
+				}
 			}
 			if n.To != addr {
 				c = "!to=" + f.c.LabelOf(n.To) + ":" + c
